@@ -39,6 +39,7 @@ class Conc:
         self.fn = an.fn
         self.fuse = fuse
         self.max_steps = max_steps
+        self.uwraps = None        # when a set: IR lines of add/mul/shl whose unsigned result did not fit
 
     def run(self, args):
         """returns ('ret', value) | ('trap', kind, inst) | ('oob', inst) | ('poison', what, inst)"""
@@ -170,6 +171,10 @@ class Conc:
                 return
             mask = (1 << w) - 1
             ua, ub = a & mask, b & mask
+            if self.uwraps is not None and op in ("add", "mul", "shl"):
+                ur = ua + ub if op == "add" else (ua * ub if op == "mul" else (ua << ub if ub < w else 0))
+                if ur >> w:
+                    self.uwraps.add(i.line)
             if op == "add":
                 r = a + b
                 if "nsw" in i.attrs and sx(r, w) != r:
